@@ -217,7 +217,7 @@ def overlay_for(driver_cfg, pid):
     """Overlay JSON injecting hooks + vh + this driver package into /repo's module."""
     repl = {}
     hdir = os.path.join(ROOT, "harness")
-    for shared in ("vh", "e2e"):   # shared harness packages: line protocol, end-to-end runner
+    for shared in ("vh", "e2e"):
         for f in sorted(os.listdir(os.path.join(hdir, shared))):
             if f.endswith(".go"):
                 repl[os.path.join(REPO, "internal/verifharness", shared, f)] = os.path.join(hdir, shared, f)
@@ -667,4 +667,8 @@ def main(argv):
     except ValueError:
         seed = 1
     rp = os.path.abspath(a.replay) if a.replay else None
+    if rp and rp.endswith(".txt"):
+        # a proof / build problem report: there is no history to re-run; show it and re-check the proofs
+        print(open(rp, errors="replace").read())
+        rp = None
     return check_property(a.property, a.tier, seed, replay=rp)
